@@ -112,6 +112,9 @@ def main(argv):
         for qual in P.get('functions', []):
             rep = verify_function(a.repo, D.VERIF, qual, opts)
             D.process_function(res, rep, REGISTRY[qual], a.repo, findings, opts)
+        for q in P.get('assumed_contracts', []):
+            c = REGISTRY[q]
+            res.assumptions.add('ASSUMED CONTRACT (not verified here) %s: requires %s ensures %s -- %s' % (q, c.requires, c.ensures, c.note))
         if P.get('crosscheck', True):
             from .crosscheck import crosscheck
             cc = []
